@@ -25,14 +25,17 @@ func init() {
 	})
 	register(&Property{
 		ID: "C25",
-		Explanation: "Decides the effect clause, not the resulting tag list: (tag-effects) the call closure of changeTags stores to no field of data.Snapshot other than Tags and Original (every other field of the snapshot is unchanged by construction); Tags is assigned the --set list only on the len(setTags)!=0 edge and AddTags/RemoveTags run only on the other edge; runTag rejects conflicting options; (replace-order) the retagged snapshot is saved before the old one is removed, so the number of snapshots never drops. Not decided: the resulting tag list — reading the code showed that Snapshot.RemoveTags stops after the first match, so a duplicated tag [a,a] survives `tag --remove a` (documented in DESIGN.md §5 as an observation; no sound structural rule decides it).",
+		Explanation: "Decides the effect clause, not the resulting tag list: (tag-effects) the call closure of changeTags stores to no field of data.Snapshot other than Tags and Original (every other field of the snapshot is unchanged by construction); Tags is assigned the --set list only on the len(setTags)!=0 edge and AddTags/RemoveTags run only on the other edge; runTag rejects conflicting options; (replace-order) the retagged snapshot is saved before the old one is removed, so the number of snapshots never drops; (set-always-persisted) on the len(setTags)!=0 edge sn.Tags is assigned the --set list itself (nil for the single empty string) and every successful return passes SaveSnapshot — skipping the save is accepted only behind an exact equality test (slices.Equal / reflect.DeepEqual) of old and new list — added after a seeded change that skipped the save for set-equal lists. Not decided: the resulting tag list of --add/--remove — reading the code showed that Snapshot.RemoveTags stops after the first match, so a duplicated tag [a,a] survives `tag --remove a` (documented in DESIGN.md §5 as an observation; no sound structural rule decides it).",
 		Assumptions: commonAssumptions,
 		Technique:   "static analysis: field-store effects over the call closure of changeTags + CFG edge cuts (go/ssa)",
 		Run: func(c *eng.Ctx) {
 			ruleTagEffects(c)
 			ruleReplaceOrder(c)
+			ruleSetAlwaysPersisted(c)
 		},
 		Controls: []Control{
+			{Name: "set-skipped-when-first-tag-equal", File: "cmd/restic/cmd_tag.go",
+				Old: "		sn.Tags = setTags\n		changed = true", New: "		changed = len(sn.Tags) == 0 || len(setTags) == 0 || sn.Tags[0] != setTags[0]\n		sn.Tags = setTags", Rule: "set-always-persisted"},
 			{Name: "tag-also-rewrites-hostname", File: "cmd/restic/cmd_tag.go",
 				Old: "		sn.Tags = setTags\n		changed = true", New: "		sn.Tags = setTags\n		sn.Hostname = \"\"\n		changed = true", Rule: "tag-effects"},
 			{Name: "add-tags-even-with-set", File: "cmd/restic/cmd_tag.go",
